@@ -14,7 +14,7 @@ Definition local_typed (P : op -> list ty -> ty -> Prop) (nodes : list node) : P
 Definition zip_a2v_ty (o : op) (dts : list ty) (t : ty) : Prop :=
   match o with
   | OZip => exists n ets, dts = map (TVector n) ets /\ t = TVector n (TTuple ets)
-  | OArrayToVector => exists d rest st, dts = [TArray (d :: rest) st] /\ valid_shape (d :: rest) /\ d < 2 ^ 64 /\
+  | OArrayToVector => exists d rest st, dts = [TArray (d :: rest) st] /\ valid_shape (d :: rest) /\ d < 2 ^ 63 /\
                                         t = TVector d (elem_ty rest st)
   | _ => True
   end.
